@@ -1,15 +1,14 @@
 package flight12
 
 //symgo:pkg github.com/pion/dtls/v3/internal/flight/flight12
-//symgo:param RID quick=1 thorough=2
-//symgo:param RSEC quick=2 thorough=3
-//symgo:param RFULL quick=0 thorough=1
+//symgo:param RID quick=2 thorough=4
+//symgo:param RSEC quick=2 thorough=4
 //symgo:replace github.com/pion/dtls/v3/pkg/crypto/prf.VerifyDataClient zzVerifyDataClient
 //symgo:replace github.com/pion/dtls/v3/pkg/crypto/prf.VerifyDataServer zzVerifyDataServer
 //symgo:stub prf.VerifyDataClient / prf.VerifyDataServer (TLS 1.2 PRF over the transcript hash) are modelled as PRF_client_finished / PRF_server_finished (master secret, H(transcript bytes)) with uninterpreted functions PRF_* (12-byte result) and H (32-byte result): equal inputs give equal outputs, nothing else is known. The PRF construction itself is property C10's subject.
 //symgo:stub the cipher suite is a harness fake (custom id 0xff01, plain PSK key exchange) that records the arguments of Init; crypto/rand.Reader hands out fresh unconstrained bytes and logs them; time.Now is the engine constant
 //symgo:stub both endpoints are the real flight12 handlers driven the way handshakeFSM12 drives them (Generate, stamp message_sequence, marshal, push into both caches with the record's epoch, Parse); the record layer, retransmission timers and the transport are not involved
-//symgo:assume NAMED ASSUMPTION key separation of the PRF: for one transcript, two different master secrets (different length or different bytes) give different 12-byte Finished values. It is stated once per run as an implication between the two harness-side applications of the same uninterpreted function.
+//symgo:assume NAMED ASSUMPTION key separation of the PRF: for one transcript, two different master secrets (different length or different bytes) give different 12-byte Finished values. It is stated once per run as an implication between the two harness-side applications of the same uninterpreted function. (The converse implication that is also stated - equal secrets give equal values - holds for every function and only spares z3 a slow congruence proof.)
 //symgo:outside histories of several connections on one pair of stores, concurrent handshakes on one store, retransmission timing; a ServerHello that names a different cipher suite than the stored session used (pion stores only id and secret, the suite is renegotiated)
 
 import (
@@ -65,7 +64,7 @@ var zzClientKey = []byte("10.0.0.1:4444_srv")
 // to the client's id or not: stale / unknown session) with a secret of 1..RSEC arbitrary bytes (equal,
 // different, or of another length: swapped / truncated). Loss: the server's abbreviated flight is delivered
 // completely, without its Finished, or without its ServerHello; the client's Finished is delivered or lost.
-// Hello verification is on or off (quick tier: with verification on only 1-byte secrets and no loss).
+// Hello verification is on or off.
 // Proved, under the named PRF key-separation assumption:
 //   - the server answers with the abbreviated flight if and only if its store knows the offered id (also when
 //     hello verification is on: a known session skips the cookie exchange); otherwise it goes on
@@ -93,12 +92,7 @@ func zzResumeTwoEndpoints() {
 	sstore.attach(server.cfg)
 	verify := zzsymChoice("hello_verify", 2) == 1
 	server.cfg.InsecureSkipHelloVerify = !verify
-	// quick tier: with hello verification on, only secrets of one byte and no loss are explored
-	vary := !verify || zzsymParam("RFULL") == 1
-	nsec := 1
-	if vary {
-		nsec = zzsymParam("RSEC")
-	}
+	nsec := zzsymParam("RSEC")
 
 	// store contents
 	idLen := 1 + zzsymChoice("idlen", zzsymParam("RID"))
@@ -178,10 +172,7 @@ func zzResumeTwoEndpoints() {
 	zzsymAssert(known, "abbreviated_only_for_known_session")
 
 	// abbreviated server flight: ServerHello, [ChangeCipherSpec], Finished; loss pattern
-	loss := 0 // 0 none, 1 Finished lost, 2 ServerHello lost
-	if vary {
-		loss = zzsymChoice("server_flight_loss", 3)
-	}
+	loss := zzsymChoice("server_flight_loss", 3) // 0 none, 1 Finished lost, 2 ServerHello lost
 	msgs, a, err := zzSend(server, client, Flight4b, []bool{loss == 2, loss == 1})
 	zzsymAssert(a == nil && err == nil && len(msgs) == 2, "abbreviated_flight_sent")
 	sh, _ := msgs[0].Message.(*handshake.MessageServerHello)
@@ -197,6 +188,9 @@ func zzResumeTwoEndpoints() {
 	vdClient := zzPRF("server_finished", csec, transcript)
 	same := zzsymEqBytes(csec, ssec)
 	zzsymAssume(zzsymImplies(zzsymNot(same), zzsymNot(zzsymEqBytes(vdServer, vdClient)))) // named assumption
+	// Not an assumption: equal keys give equal values for ANY function (congruence). Stated explicitly because
+	// z3 4.8 needs > 30 s to find this out by itself on the wide bit-vector arguments.
+	zzsymAssume(zzsymImplies(same, zzsymEqBytes(vdServer, vdClient)))
 	zzsymAssert(zzsymEqBytes(sfin.VerifyData, vdServer), "server_finished_is_prf_of_stored_secret")
 
 	cnext, ca, cerr := zzRecv(client, Flight1)
@@ -231,7 +225,7 @@ func zzResumeTwoEndpoints() {
 	zzsymAssert(same, "client_completes_only_with_same_secret")
 
 	// client Finished
-	lost := vary && zzsymChoice("client_finished_lost", 2) == 1
+	lost := zzsymChoice("client_finished_lost", 2) == 1
 	msgs2, a, err := zzSend(client, server, Flight5b, []bool{lost})
 	zzsymAssert(a == nil && err == nil && len(msgs2) == 1, "client_finished_sent")
 	snext, sa, serr := zzRecv(server, Flight4b)
